@@ -1,9 +1,13 @@
 #!/bin/sh
 # Build everything the checks need from files on disk only (offline): overlay copy of /repo, dependency build for the
-# MIR-dumping nightly, MIR dump, conformance suite of the MIR executor.
+# MIR-dumping nightly, MIR dump, conformance suite of the MIR executor, dependency build for native replay.
 set -e
 cd "$(dirname "$0")"
 export CARGO_NET_OFFLINE=true
+W=/root/.cache/undermoon-verif
 python3-vt vlib/overlay.py
-python3-vt -m mirsym.conformance /root/.cache/undermoon-verif/mir/mir.txt /root/.cache/undermoon-verif/crate > /root/.cache/undermoon-verif/conformance.log 2>&1 || true
-tail -1 /root/.cache/undermoon-verif/conformance.log
+python3-vt -m mirsym.conformance $W/mir/mir.txt $W/crate > $W/conformance.log 2>&1 || true
+tail -1 $W/conformance.log
+# native replay harness (repository toolchain); failure here only disables native replay, it does not fail setup
+(cd $W/crate && RUSTFLAGS="--cfg undermoon_verif_replay -Awarnings" cargo +stable test --offline --lib --no-run --target-dir $W/target-replay > $W/replay-build.log 2>&1) || echo "replay build failed (see $W/replay-build.log)"
+echo setup done
